@@ -942,3 +942,58 @@ pub fn build_verdict(pattern: &str) -> BuildVerdict {
         }
     }
 }
+
+/// Rough number of NFA states of an expression (every repetition counted with its copies).
+pub fn est_states(rx: &Rx) -> u64 {
+    match rx {
+        Rx::Empty => 1,
+        Rx::Lit(..) | Rx::Dot | Rx::Class(..) => 2,
+        Rx::Concat(v) | Rx::Alt(v) => v.iter().map(est_states).sum::<u64>() + 1,
+        Rx::Group(inner, _) => est_states(inner),
+        Rx::Repeat(inner, min, max) => {
+            let copies = max.unwrap_or(*min + 1).max(1) as u64;
+            est_states(inner).saturating_mul(copies)
+        }
+        #[allow(unreachable_patterns)]
+        _ => 4,
+    }
+}
+
+/// Lowers repetition counts (innermost first) until the expression has at most about `budget`
+/// NFA states: repetitions of repetitions of a long run multiply to automata that take minutes to
+/// build, which no property is about (C17 builds its huge automata deliberately and elsewhere).
+pub fn cap_states(rx: &mut Rx, budget: u64) -> u64 {
+    match rx {
+        Rx::Concat(v) | Rx::Alt(v) => {
+            let mut total: u64 = 1;
+            for x in v.iter_mut() {
+                total += cap_states(x, budget);
+            }
+            if total > budget {
+                let share = (budget / v.len().max(1) as u64).max(4);
+                total = 1;
+                for x in v.iter_mut() {
+                    total += cap_states(x, share);
+                }
+            }
+            total
+        }
+        Rx::Group(inner, _) => cap_states(inner, budget),
+        Rx::Repeat(inner, min, max) => {
+            let e = cap_states(inner, budget).max(1);
+            let copies = max.unwrap_or(*min + 1).max(1) as u64;
+            if e.saturating_mul(copies) > budget {
+                let allowed = (budget / e).max(1) as u32;
+                match max {
+                    Some(m) => {
+                        *m = (*m).min(allowed);
+                        *min = (*min).min(*m);
+                    }
+                    None => *min = (*min).min(allowed.saturating_sub(1)),
+                }
+            }
+            est_states(rx)
+        }
+        other => est_states(other),
+    }
+}
